@@ -7,7 +7,8 @@ Every documented (sea, surface) calculator pair
     GME_orb_FermiSea / GME_orb_FermiSurf                  GME_spin_FermiSea / GME_spin_FermiSurf
 
 is run through run() with a Fermi-Dirac smoother on a coarse and a dense k-grid for every model of a fixed list
-(generic triclinic 3D zoo systems with 2 and 3 bands, generic 2D zoo systems, Chiral, Haldane, Kane-Mele in an exchange field, CuMnAs with the Neel vector along (1,1,1)) and
+(generic triclinic 3D zoo systems with 2 and 3 bands, generic 2D zoo systems, Chiral, Haldane, Kane-Mele in an exchange
+field, CuMnAs with the Neel vector along (1,1,1); thorough: a one-band k.p model) and
 every temperature of the alphabet; all tensor components on the whole Fermi-level window inside the bands are compared.
 
 Oracle (differential, two-grid):  with  scale = max(|sea|,|surf|) over window and components at the dense grid
